@@ -138,12 +138,12 @@ for skips in (0, 1, 2):
 def tcfg(cols, rows, **kw):
     """Rust expression for a TCfg"""
     f = dict(sb=0, limit="None", alt=0, crow="SYM", ccol="SYM", top="SYM", bottom="SYM", parked_rows=0, parked_sb=0,
-             tabs_k="SYM", fill="Fill::Sym", asrow="SYM")
+             tabs_k="SYM", fill="Fill::Sym", asrow="SYM", big="false")
     f.update(kw)
     return ("TCfg { cols: %d, rows: %d, sb: %s, limit: %s, alt: %s, crow: %s, ccol: %s, top: %s, bottom: %s, "
-            "parked_rows: %s, parked_sb: %s, tabs_k: %s, fill: %s, asrow: %s }" % (
+            "parked_rows: %s, parked_sb: %s, tabs_k: %s, fill: %s, asrow: %s, big: %s }" % (
                 cols, rows, f["sb"], f["limit"], f["alt"], f["crow"], f["ccol"], f["top"], f["bottom"],
-                f["parked_rows"], f["parked_sb"], f["tabs_k"], f["fill"], f["asrow"]))
+                f["parked_rows"], f["parked_sb"], f["tabs_k"], f["fill"], f["asrow"], f["big"]))
 
 
 def geo_desc(cols, rows, **kw):
@@ -171,7 +171,7 @@ def nocell(op, cols, rows, props, tabs_k="SYM", alt=2, sb=1, suffix="", mem=8, o
          "t_nocell(%s, NoCellOp::%s)" % (tcfg(cols, rows, **kw), op), max(cols, rows + sb, k, 13) + 3, props, mem=mem,
          desc="execute(%s) from any InvT state: exact cursor/mode post-condition, no cell / mark / other state changes, InvT preserved" % op,
          bounds=geo_desc(cols, rows, **kw) + ("; %s tab stops" % tabs_k if tabs_k != "SYM" else "") + "; all u16 parameters",
-         optional_covers=list(optional))
+         optional_covers=list(optional) + ["a parameter of 65535 on a very tall screen"])
 
 
 MARGIN_OPS = {"LfOffMargin": "bottom", "NelOffMargin": "bottom", "RiOffMargin": "top"}
@@ -568,3 +568,15 @@ inst("vt_glue__2x2", "vt", "t_vt_glue(2, 2)", 36, {"C12": Q, "C20": T, "C01": T}
             ("crate::terminal::Terminal::execute", "crate::terminal::Terminal::kv_rec_execute")],
      desc="Vt::feed_str of a one-character string (any ASCII char) from any parser state: parser ends where Parser::feed leaves a twin parser, execute reached iff a function was produced",
      bounds="1 character < U+0080, all 14 parser states, cur_param 0, fresh 2x2 terminal")
+
+
+# ----------------------------------------------------------------------------- cursor arithmetic for every screen size (scalar slice)
+BIG_OPS = ["Bs", "Cr", "Cuu", "Cud", "Cuf", "Cub", "Cnl", "Cpl", "Cha", "Cup", "Vpa", "Vpr", "Decstbm", "OriginSet", "OriginReset"]
+for op in BIG_OPS:
+    inst("ncbig_%s" % op.lower(), "terminal", "t_nocell(%s, NoCellOp::%s)" % (tcfg(1, 1, sb=0, alt=2, limit="Some(1)", big="true"), op), 16,
+         {"C05": Q if op in ("Cuu", "Cud", "Cub", "Cup", "Decstbm") else T, "C01": Q if op in ("Cup", "Cuf") else T, "C06": T if op == "Decstbm" else None} if False else
+         {k: v for k, v in {"C05": (Q if op in ("Cuu", "Cud", "Cub", "Cup", "Decstbm") else T), "C01": (Q if op in ("Cup", "Cuf") else T), "C06": (T if op == "Decstbm" else None)}.items() if v},
+         mem=6,
+         desc="execute(%s) on the scalar slice of the state: size fields, cursor, margins, saved position symbolic for EVERY screen size up to 2^31 x 2^31 "
+              "(buffers 1x1; the operation reads no buffer): same closed forms, no overflow in the usize/isize arithmetic" % op,
+         bounds="cols, rows any in 1..=2^31; all u16 parameters", optional_covers=[])
